@@ -433,6 +433,17 @@ def run(ctx: Ctx) -> int:
 	violations = []
 	# the engine itself against its specification (spec/GramEngine.tla) on generated grammars x sentences
 	efailures, estats = engine_job.result()
+	# the same engine model on the shipped py_rules() and real token lists
+	import random as _random
+	rnd2 = _random.Random(ctx.seed)
+	short = lambda t: len(t.split()) <= 14 and len(t) <= 60
+	n1 = [c['text'] + '\n' for c in cases if c.get('off') == 0][:(120 if quick else 400)]
+	pick = [c['text'] + '\n' for c in rnd2.sample(cases, 60 if quick else 1500)] + [c['text'] for c in stmt_cases if short(c['text'])][:(12 if quick else 80)] + [m['text'] for m in mutants if short(m['text'])][:(25 if quick else 300)]
+	from harness.tranp_env import scratch_dir
+	pfail, pstats = engine_binding.run_py_gram([t if t.endswith('\n') else t + '\n' for t in n1 + pick], scratch_dir('verif-c11e-'))
+	efailures += pfail
+	estats.update(pstats)
+	ctx.log(f'engine on py_gram: GramEnginePy.tla evaluated on the shipped rule set ({pstats["py_gram_rules"]} rules) and {pstats["py_gram_sentences"]} real token lists: {pstats["py_gram_accepted"]} accepted / {pstats["py_gram_rejected"]} rejected by the real engine, {len(pfail)} differ from the specification')
 	ctx.log(f'engine: {estats["pairs"]} (grammar, sentence) pairs of {estats["grammars"]} generated grammars: verdict and tree equal those of GramEngine.tla; {estats["spin_confirmed"]}/{estats["spin_pairs_sampled"]} predicted non-returns confirmed; {len(efailures)} discrepancies')
 	egroups: dict[str, list] = {}
 	for f in efailures:
